@@ -37,6 +37,24 @@ def notRaw (tb : TB) : Bool := tb.2 != Tag.raw
 /-- A byte that claims to be escaper output or scalar text is not one of `< > " '`. -/
 def escClean (tb : TB) : Bool := (tb.2 != Tag.esc && tb.2 != Tag.scalar) || !isSpecial tb.1
 
+/-- A byte that claims to be scalar text is drawn from the scalar alphabet. -/
+def scalarTagOk (tb : TB) : Bool := tb.2 != Tag.scalar || isScalarByte tb.1
+
+/-- The output bytes that would result if the bytes the sinks wrote by the scalar fast path were
+sent through the escaper too (the escaper works byte by byte). -/
+def escapeScalarBytes (out : TStr) : List Nat :=
+  out.flatMap (fun tb => if tb.2 == Tag.scalar then escapeHtml [tb.1] else [tb.1])
+
+/-- The `ValueKind`s a model value stands for (`scalar` stands for bool and the five number kinds). -/
+def kindNames : TVal → List String
+  | .undef => ["Undefined"]
+  | .none => ["None"]
+  | .scalar _ => ["Bool", "U64", "I64", "F64", "U128", "I128"]
+  | .str .. => ["String"]
+  | .bytes _ => ["Bytes"]
+  | .arr _ => ["Array"]
+  | .map _ => ["Map"]
+
 def onlySafe (s : Bool) : Bool := s
 def everyString (_ : Bool) : Bool := true
 def anyScalar (_ : List Nat) : Bool := true
@@ -62,6 +80,26 @@ def Prog.clean (ov : Option Bool) : Prog → Bool
   | .incl tplAe t k => ov.getD tplAe && t.clean ov && k.clean ov
   | .super p k => p.clean ov && k.clean ov
   | .block b k => b.clean ov && k.clean ov
+
+/-- Every template included (directly or from nested chunks) has autoescape flag `f`. -/
+def Prog.inclAll (f : Bool) : Prog → Bool
+  | .done => true
+  | .op _ k => k.inclAll f
+  | .forEach _ b k => b.inclAll f && k.inclAll f
+  | .comp _ b a _ d k => b.inclAll f && a.inclAll f && d.inclAll f && k.inclAll f
+  | .incl tplAe t k => (tplAe == f) && t.inclAll f && k.inclAll f
+  | .super p k => p.inclAll f && k.inclAll f
+  | .block b k => b.inclAll f && k.inclAll f
+
+/-- `p` followed by `q` (sequencing at top level). -/
+def Prog.append : Prog → Prog → Prog
+  | .done, q => q
+  | .op i k, q => .op i (k.append q)
+  | .forEach v b k, q => .forEach v b (k.append q)
+  | .comp hb b a ps d k, q => .comp hb b a ps d (k.append q)
+  | .incl ae t k, q => .incl ae t (k.append q)
+  | .super p k, q => .super p (k.append q)
+  | .block b k, q => .block b (k.append q)
 
 /-- A context as it comes from outside the engine: every byte of every string is `raw`, no
 (non-empty) string is pre-marked safe, and bool / number text is drawn from the scalar alphabet. -/
